@@ -1,6 +1,7 @@
 CONSTANTS ControlsExisting = TRUE
   RandomFresh = TRUE
   OpenReturns = TRUE
+  OwnsOnlyCreated = TRUE
 SPECIFICATION TSpec
 INVARIANTS OneOwner
 CONSTRAINT Mark
